@@ -70,7 +70,7 @@ def optional_props_resource(rng):
 def list_param_resource(rng):
     """list-typed and value-less parameters, used where a list / a string is expected"""
     return {"Type": "Custom::Uses", "Properties": {"Subnets": {"Ref": "Subnets"}, "First": {"Fn::Select": [0, {"Ref": "Names"}]}, "Joined": {"Fn::Join": [",", {"Ref": "Names"}]},
-                                                   "Ports": {"Ref": "Ports"}, "Missing": {"Ref": "NoValueList"}, "Plain": {"Ref": "NoValue"}, "Each": [{"Ref": "Env"}, {"Fn::Sub": "${Env}-${AWS::Region}"}]}}
+                                                   "Ports": {"Ref": "Ports"}, "OnePort": {"Ref": "OnePort"}, "FirstZone": {"Fn::Select": [0, {"Ref": "Zones"}]}, "Missing": {"Ref": "NoValueList"}, "Plain": {"Ref": "NoValue"}, "Each": [{"Ref": "Env"}, {"Fn::Sub": "${Env}-${AWS::Region}"}]}}
 
 
 PARAMS = {
@@ -78,6 +78,8 @@ PARAMS = {
     "Names": {"Type": "CommaDelimitedList", "Default": "a,b,c"},
     "Subnets": {"Type": "List<AWS::EC2::Subnet::Id>", "Default": "subnet-1,subnet-2"},
     "Ports": {"Type": "List<Number>", "Default": "80,443"},
+    "OnePort": {"Type": "List<Number>", "Default": 443},  # a single number, written as a number (YAML `Default: 443`)
+    "Zones": {"Type": "CommaDelimitedList", "Default": 1},
     "NoValueList": {"Type": "CommaDelimitedList"},
     "NoValue": {"Type": "String"},
     "NoValueNumber": {"Type": "Number"},
@@ -116,7 +118,7 @@ def gen_case(rng, i):
     t = {"AWSTemplateFormatVersion": "2010-09-09", "Description": "d", "Parameters": copy.deepcopy(PARAMS),
          "Conditions": {"IsProd": {"Fn::Equals": [{"Ref": "Env"}, "prod"]}, "IsDev": {"Fn::Not": [{"Condition": "IsProd"}]}},
          "Mappings": {"M": {"a": {"b": "c"}}}, "Resources": res, "Outputs": {"O": {"Value": {"Ref": "R0"}}}}
-    extra = rng.choice([{}, {"Env": "prod"}, {"Env": "prod", "Names": "x", "NoValue": "given", "Ports": "1,2,3"}, {"NoValueList": "p,q", "Unused": "u"}])
+    extra = rng.choice([{}, {"Env": "prod"}, {"Env": "prod", "Names": "x", "NoValue": "given", "Ports": "1,2,3"}, {"NoValueList": "p,q", "Unused": "u"}, {"Ports": 8443, "Count": 7}, {"Names": 5, "Env": "dev"}])
     if i % 5 == 4:
         # all sixteen functions, in the properties of unmodelled resources (any value fits there; whether the expression
         # itself is well typed is the model's verdict)
@@ -215,9 +217,14 @@ def run(report, tier, seed, driver, proofs_ok):
             # unmodelled resource it is plain data of a valid template: run it (recorded finding D28)
             item["scope"] = True
     # phase 2: the pipeline, sandboxed
+    overruns = 0
     try:
         for item in todo:
             tv, extra, kinds, variant = item["t"], item["extra"], item["kinds"], item["variant"]
+            if overruns >= 4:
+                # each overrun costs its whole budget: after four the run stops exploring (the violations stand)
+                report.count("not-run-after-repeated-budget-overruns")
+                continue
             if not item["scope"]:
                 report.count("out-of-scope:" + item["why"])
                 continue
@@ -239,6 +246,7 @@ def run(report, tier, seed, driver, proofs_ok):
                 what = f"pipeline-raises-{res['class']}:{res.get('stage')}"
             elif res["outcome"] == "timeout":
                 what = "pipeline-exceeds-time-budget"
+                overruns += 1
             else:
                 what = "pipeline-worker-" + res["outcome"]
             shape = "single-member-object-named-Condition-with-object-value" if has_condition_object(tv) else "other"
